@@ -3,6 +3,7 @@ package main
 import (
 	"bytes"
 	"context"
+	"encoding/base64"
 	"fmt"
 	"net/http/httptest"
 	"strconv"
@@ -195,12 +196,12 @@ func c08Limits(c *Ctx) {
 					}
 				}
 				// gRPC and gRPC-web, identity and gzip (also a highly compressible payload)
-				for _, tr := range []string{"grpc", "web"} {
+				for _, tr := range []string{"grpc", "web", "web-text", "web-2msgs"} {
 					for _, z := range []bool{false, true} {
 						payload := enc
 						flag := byte(0)
 						hdr := map[string]string{"Content-Type": "application/grpc+proto"}
-						if tr == "web" {
+						if tr != "grpc" {
 							hdr["Content-Type"] = "application/grpc-web+proto"
 						}
 						if z {
@@ -209,6 +210,14 @@ func c08Limits(c *Ctx) {
 						}
 						sfx.reset(nil)
 						wire := grpcFrame(flag, payload)
+						if tr == "web-2msgs" { // a small message first: the limit is per message, not per body
+							small, _ := proto.Marshal(reqWithData(fx, []byte{9, 9, 9}))
+							wire = append(grpcFrame(0, small), wire...)
+						}
+						if tr == "web-text" {
+							hdr["Content-Type"] = "application/grpc-web-text+proto"
+							wire = []byte(base64.StdEncoding.EncodeToString(wire))
+						}
 						rec, pn := sfx.serveStream("POST", "/verif.v1.Svc/Up", hdr, wire, genSched(c, len(wire)), c.Rng.Intn(2) == 0, tr == "grpc")
 						st := rec.Header().Get("Grpc-Status")
 						if st == "" {
@@ -222,11 +231,30 @@ func c08Limits(c *Ctx) {
 							// the compressed frame itself is larger than the limit although the message is not
 							c.Eval(kind, sizeIn("compressed-larger"), true)
 							if !reachedWith() {
-								c.SpecFail(kind, sizeIn(fmt.Sprintf("compressed=%d", len(payload))), "refused", "delivered", "C08/"+kind+"/compressed-frame-over-limit", "a message within the limit is refused because its compressed frame is larger than the limit")
+								c.SpecFail(kind, sizeIn(fmt.Sprintf("compressed=%d", len(payload))), "refused", "delivered", "C08/"+map[bool]string{true: "grpc", false: "web"}[tr == "grpc"]+"-gzip/compressed-frame-over-limit", "a message within the limit is refused because its compressed frame is larger than the limit")
 							}
 							continue
 						}
 						judge(kind, sizeIn(""), reachedWith(), st != "0", pn)
+					}
+				}
+				// a frame that claims to be compressed on a stream that negotiated no compression: whatever the
+				// mux makes of it, its payload over the limit never reaches the handler
+				if over {
+					for _, enc2 := range []string{"", "identity"} {
+						hdr := map[string]string{"Content-Type": "application/grpc+proto"}
+						if enc2 != "" {
+							hdr["Grpc-Encoding"] = enc2
+						}
+						sfx.reset(nil)
+						_, pn := sfx.serveStream("POST", "/verif.v1.Svc/Up", hdr, grpcFrame(1, enc), nil, false, true)
+						in := sizeIn(fmt.Sprintf("frame flag 1 with Grpc-Encoding %q", enc2))
+						c.Eval("grpc-forged-flag", in, true)
+						if pn != nil {
+							c.SpecFail("grpc-forged-flag", in, fmt.Sprint("panic: ", pn), "an error", "C08/grpc-forged-flag/panic", "panic")
+						} else if reachedWith() || len(sfx.got) > 0 {
+							c.SpecFail("grpc-forged-flag", in, fmt.Sprintf("%d message(s) delivered", len(sfx.got)), "an error", "C08/grpc-forged-flag/over-limit-delivered", "a frame marked compressed on a stream without compression carries an over-limit message to the handler")
+						}
 					}
 				}
 				// highly compressible bomb: tiny frame, inflates to 8 x limit
